@@ -574,3 +574,33 @@ inside the tuple prior, the string default reaches the instance, two new priors 
 #guard paths (mkModel sigT2 kwT2 10).1 == [["r"], ["pos", "pos_5"], ["pos", "pos_0"], ["pos", "pos_1"]]
 
 end AF.C01
+
+namespace AF.C01
+open AF
+
+/-- **Parameter order of a class composed from its signature.** `Model(cls)` (no keywords) at prior
+counter `n` holds, in constructor-argument order and depth first (tuple members in position order,
+annotated classes entered), exactly the new prior ids `n, n+1, …` – consecutive, none twice – and so … -/
+theorem fresh_model_ids_consecutive_in_argument_order {V : Type} (c : String) (as : List (String × ArgD)) (n : Nat) :
+    (walk (mkSub (V := V) c as n).1).map (·.2) = List.range' n ((mkSub (V := V) c as n).2 - n)
+      ∧ n ≤ (mkSub (V := V) c as n).2 :=
+  mkSub_walk c as n
+
+/-- … the parameter paths it advertises (`paths`, the order of the vector) are its constructor
+arguments in signature order, depth first: for a freshly composed class, vector order = signature order. -/
+theorem fresh_model_paths_in_argument_order {V : Type} (c : String) (as : List (String × ArgD)) (n : Nat) :
+    pathPriors (mkSub (V := V) c as n).1 = walk (mkSub (V := V) c as n).1 :=
+  paths_mkSub c as n
+
+/- non-vacuity: `Model(Deep)` of harness/vlib.py (`left: Nest(inner: P2, k)`, `right: P1`, `z`) at counter 7 -/
+def sigDeep : List (String × ArgD) :=
+  [("left", .sub "Nest" [("inner", .sub "P2" [("a", .cfg), ("b", .cfg)]), ("k", .cfg)]),
+   ("right", .sub "P1" [("a", .cfg)]), ("z", .cfg)]
+example : (walk (mkSub (V := Nat) "Deep" sigDeep 7).1).map (·.2) = List.range' 7 ((mkSub (V := Nat) "Deep" sigDeep 7).2 - 7) :=
+  (fresh_model_ids_consecutive_in_argument_order "Deep" sigDeep 7).1
+/-! tests (compiler-evaluated): the concrete walk and counter of that example -/
+#guard (walk (mkSub (V := Nat) "Deep" sigDeep 7).1)
+    == [(["left", "inner", "a"], 7), (["left", "inner", "b"], 8), (["left", "k"], 9), (["right", "a"], 10), (["z"], 11)]
+#guard (mkSub (V := Nat) "Deep" sigDeep 7).2 == 12
+
+end AF.C01
